@@ -22,7 +22,7 @@ type pnEntry struct {
 
 var pnTable = []pnEntry{
 	{"(*stack.scanningState).scan", "expected s.Goroutines to be nil", "unreachable: no configuration of the scanner automaton reaches it", "SM-panic"},
-	{"(*stack.reader).fill", "tried to fill full buffer", "readSlice calls fill only when the buffer is not full (FL-fill-guard); needs the cursor invariant 0<=r<=w<=len(buf), which is relational and trusted, not decided", "FL-fill-guard"},
+	{"(*stack.reader).fill", "tried to fill full buffer", "readSlice calls fill only when the buffer is not full (FL-fill-guard); unreachable under the inferred cursor invariant (RB-panic, claimed with RB)", "FL-fill-guard"},
 	{"(*stack.reader).fill", "negative count", "contract of io.Reader (0 <= n <= len(p)); a broken reader is reported like bufio does", ""},
 	{"stack.getGOPATHs", "", "configuration, not input: neither a current user nor $HOME exists", ""},
 }
@@ -41,7 +41,7 @@ func pnPanics(c *Ctx, a *flAgg) {
 						var ent *pnEntry
 						for i := range pnTable {
 							e := &pnTable[i]
-							if strings.HasSuffix(funcKey(f), strings.TrimPrefix(e.fn, "(*stack.")) || funcKey(f) == e.fn {
+							if strings.HasSuffix(funcKey(f), strings.TrimPrefix(e.fn, "(*stack.")) || funcKey(f) == e.fn || (defaultInline(f) && withinOnly(c, f, e.fn, 0)) {
 								if e.msg == "" || strings.Contains(msg, e.msg) {
 									ent = e
 								}
@@ -259,6 +259,13 @@ func lpRangeOrCounted(l *loopInfo) (string, bool) {
 		if cv, ok := v.(*ssa.Convert); ok && !inLoop(cv.X) {
 			return true
 		}
+		// arithmetic on invariants (len(x)/2, n-1)
+		if bo, ok := v.(*ssa.BinOp); ok {
+			switch bo.Op {
+			case token.ADD, token.SUB, token.MUL, token.QUO:
+				return invariantRec(bo.X, inLoop, l, 0) && invariantRec(bo.Y, inLoop, l, 0)
+			}
+		}
 		// len of a field (re-)loaded in the loop: invariant when the loop neither
 		// stores to that field nor calls anything that could (only pure callees)
 		if c, ok := v.(*ssa.Call); ok && bnCallee(c) == "builtin.len" {
@@ -327,6 +334,27 @@ func lpRangeOrCounted(l *loopInfo) (string, bool) {
 		}
 	}
 	return "", false
+}
+
+// invariantRec: constants, values defined outside the loop, len of such
+// values, and arithmetic on them.
+func invariantRec(v ssa.Value, inLoop func(ssa.Value) bool, l *loopInfo, depth int) bool {
+	if depth > 4 {
+		return false
+	}
+	if _, ok := v.(*ssa.Const); ok || !inLoop(v) {
+		return true
+	}
+	if c, ok := v.(*ssa.Call); ok && bnCallee(c) == "builtin.len" && !inLoop(c.Call.Args[0]) {
+		return true
+	}
+	if bo, ok := v.(*ssa.BinOp); ok {
+		switch bo.Op {
+		case token.ADD, token.SUB, token.MUL, token.QUO:
+			return invariantRec(bo.X, inLoop, l, depth+1) && invariantRec(bo.Y, inLoop, l, depth+1)
+		}
+	}
+	return false
 }
 
 // isLoadOfInvariant: a pointer that is itself (re)loaded from a location
